@@ -43,15 +43,21 @@ type C17Run struct {
 
 type C17Scenario struct {
 	ScenarioBase
-	Servers int                 `json:"servers"`
-	Known   []C17Entry          `json:"known"`
-	FinalNL bool                `json:"final_nl"`
-	Runs    []C17Run            `json:"runs"`
+	Servers int        `json:"servers"`
+	Known   []C17Entry `json:"known"`
+	FinalNL bool       `json:"final_nl"`
+	Runs    []C17Run   `json:"runs"`
 	// Rekey: servers that present ANOTHER host key from their second connection
 	// on (re-installed machine, or somebody in the middle of the re-dial); only
 	// with a single run, and their original key is in known_hosts
 	Rekey []int `json:"rekey,omitempty"`
-	Net     verifsimnet.Profile `json:"net"`
+	// StdoutLogger: the client logs to the terminal. Not generated: the stdout
+	// logger's Pause() returns only when the next message is logged, and with
+	// nothing to log the prompt never appears (real dtail behaviour, DESIGN §7);
+	// ThinkMs: the time the user takes for each answer
+	StdoutLogger bool                `json:"stdout_logger,omitempty"`
+	ThinkMs      int                 `json:"think_ms,omitempty"`
+	Net          verifsimnet.Profile `json:"net"`
 }
 
 func c17Gen(r *Rand, tier string, i int) Scenario {
@@ -92,6 +98,9 @@ func c17Gen(r *Rand, tier string, i int) Scenario {
 		sc.Known = append(sc.Known, e)
 	}
 	sc.FinalNL = r.Bool(0.8)
+	if r.Bool(0.3) {
+		sc.ThinkMs = PickOf(r, 100, 700, 1900, 2100, 5000)
+	}
 	nr := PickOf(r, 1, 1, 2, 3)
 	for k := 0; k < nr; k++ {
 		run := C17Run{TrustAll: r.Bool(0.2), CancelAtMs: -1}
@@ -202,7 +211,7 @@ type c17Server struct {
 	rekey          bool
 	establishedNew int // sessions that reached the shell under the server's second key
 	established    int // sessions that reached the shell
-	commands    int // sessions in which command bytes arrived
+	commands       int // sessions in which command bytes arrived
 }
 
 func (w *World) runKeyServer(i int, st *c17Server) {
@@ -271,6 +280,9 @@ func c17Run(t *testing.T, s Scenario, src verifsim.DecisionSource, keep bool) *R
 	res := &RunResult{Info: map[string]any{}}
 	np := sc.Net
 	opts := RunOpts{Src: src, KeepLabels: keep, MaxFake: 30 * time.Minute, Net: &np}
+	if sc.ThinkMs > 0 {
+		opts.Stalls = stallRules([]StallSpec{{Name: "user.thinks", Site: "user/answers", Suffix: "", From: 0, To: -1, DurMs: sc.ThinkMs}})
+	}
 	violation, vmsg := "", ""
 	fail := func(cls, msg string) {
 		if violation == "" {
@@ -342,12 +354,21 @@ func c17Run(t *testing.T, s Scenario, src verifsim.DecisionSource, keep bool) *R
 			must(err)
 			os.Stdin = f
 			startOut := w.StdoutSize()
+			if os.Getenv("VERIF_DUMP_STDOUT") != "" {
+				w.Sim.GoOn(w.Sim.NewNode(fmt.Sprintf("dbg%d", ri), "client", "clienthost"), "harness/dbg", func() {
+					w.Sleep(20 * time.Second)
+					fmt.Fprintf(os.Stderr, "STDOUT@20s run %d:\n%s\n", ri, trunc(string(w.Stdout(-1)), 3000))
+				})
+			}
 			base := make([]c17Server, sc.Servers)
 			for i := range states {
 				base[i] = *states[i]
 			}
 			a := DefaultArgs()
 			a.Logger = "none"
+			if sc.StdoutLogger {
+				a.Logger = "stdout"
+			}
 			a.NoColor = true
 			a.What = "/var/log/x.log"
 			a.ServersStr = strings.Join(hosts, ",")
@@ -541,7 +562,7 @@ func c17Shape(s Scenario) string {
 	for _, r := range sc.Runs {
 		rs = append(rs, fmt.Sprintf("%v:%s:c%d", r.TrustAll, strings.Join(r.Answers, "/"), r.CancelAtMs))
 	}
-	return fmt.Sprintf("s%d/rekey%v/%s/nl%v/%s/slow%v", sc.Servers, sc.Rekey, strings.Join(ks, ","), sc.FinalNL, strings.Join(rs, ";"), sc.Net.ConnLatency)
+	return fmt.Sprintf("s%d/rekey%v/%s/nl%v/%s/slow%v/out%v/think%d", sc.Servers, sc.Rekey, strings.Join(ks, ","), sc.FinalNL, strings.Join(rs, ";"), sc.Net.ConnLatency, sc.StdoutLogger, sc.ThinkMs)
 }
 
 func c17Sample(s Scenario) any {
@@ -598,8 +619,8 @@ func init() {
 			"not about a newly trusted address is still present verbatim, new hosts are recorded, no .tmp is left. distinct = (history, schedule hash); every run is non-trivial",
 		Real: []string{"internal/ssh/client (KnownHostsCallback.Wrap, PromptAddHosts batching on the fake clock, trustHosts rewrite)", "internal/io/prompt", "internal/clients + connectors (dial path)",
 			"x/crypto/ssh + knownhosts over simnet"},
-		Stub: []string{"servers are harness SSH servers with their own host keys (they record sessions)", "the user is a script: os.Stdin is a regular file with one answer per 4096-byte line (answers are instantaneous)",
-			"client logger 'none' (the stdout logger's pause/resume protocol blocks under a mutex, which the simulator cannot schedule)"},
+		Stub: []string{"servers are harness SSH servers with their own host keys (they record sessions)", "the user is a script: os.Stdin is a regular file with one answer per 4096-byte line; an answer takes 0-5 s of simulated time",
+			"client logger 'none': with the terminal logger the prompt appears only once some other message is logged (Pause() is handed over to the next log call), so a quiet client hangs before the question is shown - real behaviour, reproduced with the binaries, but no listed property speaks about it (DESIGN §7); the pause/resume protocol itself runs in C07"},
 		Assumptions: []string{"x/crypto/ssh/knownhosts decides whether a key matches the file (trusted base)"},
 		New:         func() Scenario { return &C17Scenario{} },
 		Gen:         c17Gen,
